@@ -16,7 +16,7 @@ import GoldModel.Drive.ExSpec
     param  := M t t t ty | N t t ty
     tyx    := ty | XR t (- | + t t t) { (F t t ty)* } t | XP t params | XF t params t t
     cop    := CB t | CE t t | CL t evar (, t evar)* . t      evar := EN t | EV t t t
-    ty     := YC cop (+ t cop)* . | YB t | YS t t t t | YR t t abs | YG t t t | YE t t t | YP t t | YA t idx (- | + idx) t t | YI t t
+    ty     := YC cop (+ t cop)* . | YB t | YS t t t t | YR t (- | O t t commas t) t abs | YG t t t | YE t t t | YP t t | YA t idx (- | + idx) t t | YI t t
     idx    := IB t t t | IR t t t t t
     stmts  := [ stmt* ]
     opt    := - | + t
@@ -55,6 +55,13 @@ def idx : P Idx
   | "IR" :: ws => do
     let (l, ws) ← tok ws; let (a, ws) ← tok ws; let (b, ws) ← tok ws; let (c, ws) ← tok ws; let (r, ws) ← tok ws
     pure (⟨l, .range a b c, r⟩, ws)
+  | _ => none
+
+partial def commas : P (List (Tok × Tok))
+  | "." :: ws => some ([], ws)
+  | "," :: ws => do
+    let (c, ws) ← tok ws; let (t, ws) ← tok ws; let (more, ws) ← commas ws
+    pure ((c, t) :: more, ws)
   | _ => none
 
 def evar : P EVar
@@ -103,8 +110,16 @@ def ty : P Ty
     let (t, ws) ← tok ws; let (l, ws) ← tok ws; let (n, ws) ← tok ws; let (r, ws) ← tok ws
     pure (.sized t l n r, ws)
   | "YR" :: ws => do
-    let (r, ws) ← tok ws; let (t, ws) ← tok ws; let (i, ws) ← abs ws
-    pure (.ref r t i, ws)
+    let (r, ws) ← tok ws
+    match ws with
+    | "-" :: ws => do
+      let (t, ws) ← tok ws; let (i, ws) ← abs ws
+      pure (.ref r none t i, ws)
+    | "O" :: ws => do
+      let (lb, ws) ← tok ws; let (f, ws) ← tok ws; let (rest, ws) ← commas ws; let (rb, ws) ← tok ws
+      let (t, ws) ← tok ws; let (i, ws) ← abs ws
+      pure (.ref r (some ⟨lb, f, rest, rb⟩) t i, ws)
+    | _ => none
   | "YG" :: ws => do
     let (a, ws) ← tok ws; let (b, ws) ← tok ws; let (c, ws) ← tok ws
     pure (.range a b c, ws)
@@ -160,13 +175,6 @@ def optTok : P (Option Tok)
   | "+" :: ws => do
     let (t, ws) ← tok ws
     pure (some t, ws)
-  | _ => none
-
-partial def commas : P (List (Tok × Tok))
-  | "." :: ws => some ([], ws)
-  | "," :: ws => do
-    let (c, ws) ← tok ws; let (t, ws) ← tok ws; let (more, ws) ← commas ws
-    pure ((c, t) :: more, ws)
   | _ => none
 
 partial def tokList : P (List Tok)
